@@ -1344,9 +1344,17 @@ static void run_api(const Vals& v, Ctx& c) {
           break;
         }
         default: {
+          // one call in two is in place (the supported forms: res is the very same pointer, with the same stride, as a -- or as b for
+          // add / sub); the accelerated and the portable drivers must agree there too, for every combination of limb counts
+          const int ip = (int)sh(27, 2);
+          const bool on_a = ip == 1, on_b = ip == 2 && (op == A_ADD || op == A_SUB);
+          const uint64_t res_sl = on_a ? a_sl : on_b ? b_sl : ::std::max<uint64_t>(n, n + sh(13, 2));
           int64_t *a = ibuf(A, ext(a_size, a_sl), OVER), *b = ibuf(B, ext(b_size, b_sl), UNDER);
-          Buf R = ar.alloc(ext(res_size, res_sl) * 8, OVER, 0, 3, seed);
+          const size_t rw = std::max<size_t>(ext(res_size, res_sl), on_a ? ext(a_size, a_sl) : on_b ? ext(b_size, b_sl) : 0);
+          Buf R = ar.alloc(rw * 8, OVER, 0, 3, seed);
           int64_t* res = R.as<int64_t>();
+          if (on_a) { memcpy(res, a, ext(a_size, a_sl) * 8); a = res; }
+          if (on_b) { memcpy(res, b, ext(b_size, b_sl) * 8); b = res; }
           switch (op) {
             case A_ADD: vec_znx_add(mod, res, res_size, res_sl, a, a_size, a_sl, b, b_size, b_sl); break;
             case A_SUB: vec_znx_sub(mod, res, res_size, res_sl, a, a_size, a_sl, b, b_size, b_sl); break;
@@ -1358,7 +1366,7 @@ static void run_api(const Vals& v, Ctx& c) {
               vec_znx_normalize_base2k(mod, log2_base2k, res, res_size, res_sl, a, a_size, a_sl, T.p);
             }
           }
-          out.assign(res, res + ext(res_size, res_sl));  // stride padding included (identical prefill)
+          out.assign(res, res + rw);  // stride padding (and, in place, the operand's limbs beyond res_size) included: identical prefill
         }
       }
     }
